@@ -40,6 +40,41 @@ def scratch_dir():
     return tempfile.mkdtemp(prefix="mverif-", dir=base)
 
 
+def debug_logging(on):
+    """Half of the generated cases run with debug logging switched on for the `maestrowf` loggers (as
+    `maestro -d 1` does), half with logging off: what the code does must not depend on what it logs.
+    Nothing is printed either way: the records stop at a NullHandler on the package's logger."""
+    import logging
+    lg = logging.getLogger("maestrowf")
+    if not any(isinstance(h, logging.NullHandler) for h in lg.handlers):
+        lg.addHandler(logging.NullHandler())
+    lg.propagate = False
+    # `logging.info(...)` on the root logger configures a stderr handler when there is none: keep a silent one
+    # there, and drop whatever stream handler a command-line run left behind
+    root = logging.getLogger()
+    if not any(isinstance(h, logging.NullHandler) for h in root.handlers):
+        root.addHandler(logging.NullHandler())
+    for h in list(root.handlers):
+        if type(h) is logging.StreamHandler:
+            root.removeHandler(h)
+    if on:
+        logging.disable(logging.NOTSET)
+        lg.setLevel(logging.DEBUG)
+        logging.getLogger().setLevel(logging.WARNING)
+    else:
+        lg.setLevel(logging.WARNING)
+        logging.disable(logging.CRITICAL)
+
+
+_LOG_TURN = [0]
+
+
+def next_logging():
+    """alternate: debug logging on for every other case"""
+    _LOG_TURN[0] += 1
+    debug_logging(_LOG_TURN[0] % 2 == 0)
+
+
 class Ctx:
     def __init__(self, prop, tier, seed):
         self.prop = prop
